@@ -62,8 +62,8 @@ def unrt(p):
 
 def pol_term(p):
     k = p[0]
-    if k == "Default":  # class-body `name = value` over an inherited trait: the definition it must amount to (C13-v2)
-        return pol_term(p[2])
+    if k == "Default":  # class-body `name = value` over the trait p[2] of the first base that has the name (C13-v2)
+        return C("redefault", pol_term(p[2]), p[1])
     if k == "RT":
         return C("round_trip", pol_term(p[2]))
     if k in ("Python", "Disallow"):
@@ -669,6 +669,11 @@ def abcify(case):
     if "precls" in c:
         c["precls"] = mp(case["precls"])
     c["kind"] = "abc-" + case.get("kind", "")
+    bases_of = {0: [], 1: [0], 2: [0]}
+    for i, cd in enumerate(c["classes"]):
+        bases_of[NROOTS + i] = cd["bases"]
+        if c3_mro(bases_of, NROOTS + i, {}) is None:
+            return None     # Python would refuse the class (the root classes are no longer siblings)
     return c
 
 
@@ -696,7 +701,7 @@ def visible_explicit(classes, k, memo=None):
         cd = classes[k - NROOTS]
         for n, p in cd["decls"]:
             if not n.endswith("_"):
-                vis[n] = p[2] if p[0] == "Default" else p
+                vis[n] = with_default(p[2], p[1]) if p[0] == "Default" else p
         for b in cd["bases"]:
             for n, p in visible_explicit(classes, b, memo).items():
                 vis.setdefault(n, p)
@@ -742,7 +747,7 @@ def add_override_class(h, rnd, ctx):
             v = rnd.choice([0, 1, 5, 6, 101, 104])
             q = with_default(p, v)
             if q is not None and v != 201 and rnd.random() < 0.7:
-                decls.append([name, ["Default", v, q]])
+                decls.append([name, ["Default", v, unrt(p)]])
                 ctx.count("default-override:" + q[0])
     classes.append({"decls": decls, "bases": bases})
     return {"classes": classes, "cls": k}
@@ -771,7 +776,7 @@ def override_corpus():
             for order in ([3, 4], [4, 3]):
                 top = first if order[0] == 3 else second
                 cs.append({"classes": [{"decls": [["x", first]], "bases": [root]}, {"decls": [["x", second]], "bases": [root]},
-                                       {"decls": [["x", ["Default", 5, with_default(top, 5)]]], "bases": order}],
+                                       {"decls": [["x", ["Default", 5, top]]], "bases": order}],
                            "cls": 5, "kind": "override-corpus",
                            "ops": [["Get", "x"], ["Set", "x", 1], ["Get", "x"], ["Set", "x", 101], ["Get", "x"], ["Set", "x", 2],
                                    ["Del", "x"], ["Get", "x"]]})
@@ -1013,14 +1018,14 @@ def run(ctx):
         cases += [staged_history(rnd.choice(pool), rnd, ctx, maxlen) for _ in range(nstaged)]
         cases += [two_instance_history(rnd.choice(pool), rnd, ctx, maxlen) for _ in range(nstaged)]
         cases += [mapped_history(rnd.choice(pool), rnd, ctx, maxlen) for _ in range(2 * nstaged)]
-        cases += [delegate_history(rnd.choice(pool), rnd, ctx, maxlen) for _ in range(nstaged)]
+        cases += [delegate_history(rnd.choice(pool), rnd, ctx, maxlen) for _ in range(nstaged * 2 // 3)]
         # class bodies giving new defaults to inherited traits (C13-v2)
         cases += override_corpus()
         opool = [override_hierarchy(rnd, ctx) for _ in range(20 if ctx.tier == "quick" else 200)] + \
                 [add_override_class(rnd.choice(pool), rnd, ctx) for _ in range(20 if ctx.tier == "quick" else 200)]
-        cases += [random_history(rnd.choice(opool), rnd, ctx, maxlen) for _ in range(nstaged)]
+        cases += [random_history(rnd.choice(opool), rnd, ctx, maxlen) for _ in range(nstaged * 2 // 3)]
         # the same under the ABC variants of the root classes (C13-v1)
-        cases += abc_corpus() + [abcify(c) for c in cases if rnd.random() < 0.08]
+        cases += abc_corpus() + [a for a in (abcify(c) for c in cases if rnd.random() < 0.06) if a is not None]
         ctx.count("hierarchies", len(hiers) + len(pool))
     for c in cases:
         ctx.count("case:" + c.get("kind", "replay"))
